@@ -33,12 +33,22 @@ CHECKS = {
              "flushes and compactions run under the operators and restarts restore from compacted tables + L0 tables + WAL tails (counted; zero = "
              "machinery error); restart with another worker count (1<->2 exhaustive in TLC, 1<->2 and 2<->3 replayed, 1..3 in free-running traces): "
              "splits re-assigned, several old operator checkpoints merged into one new operator / one old checkpoint shared by several; a new "
-             "checkpoint created while the previous snapshot write is in flight, writes landing in either order, kills inside that window.",
+             "checkpoint created while the previous snapshot write is in flight, writes landing in either order, kills inside that window. "
+             "Survivors arm (checks/c01_surv.py, harness/cluster/survivors.go): after a Kill only the killed workers are replaced - the others "
+             "keep their Operator / SourceRunner objects and are deployed again in place by the surviving jobs.Job (heartbeat expiry, pause, "
+             "re-assembly of the first N registered operators in id order) or by a new Job when the job was killed too; replacement ids sort "
+             "after or before the survivors', so survivors move to other key-group ranges and restore other operators' checkpoints; calls of "
+             "the old assembly are delivered late to redeployed survivors; snapshot writes of the old assembly land after the "
+             "re-assembly; dkv tuned as in the deep arms and the garbage collector forced after every such restart.",
         note="Bounded constants (worker counts 1..3); one assembly per job (a restart is a new Job + fresh workers; the worker count only "
              "changes with such a restart; of a re-assembly inside a living job the restart arm - Restart.tla stepped through start() of the real "
              "jobs.Job with the publication gated - checks that operators and sources resume from one cut, the rest is C15); dkv flush/compaction run free under the operators (tuned sizes), their "
              "interleaving with the DKV checkpoint is sampled by the Go scheduler, not enumerated (C08/C18 enumerate it); watermarks are dropped "
              "in replay mode and passed in trace mode; the snapshot write may stay in flight across kills and the next checkpoint, but one "
              "publication (write + deletion of the old file + retention round to the operators) is one step; no new checkpoint is started "
-             "while one is pending or a node is dead (the job refuses / cannot complete it)."),
+             "while one is pending or a node is dead (the job refuses / cannot complete it). Survivors arm: a call to a killed node hangs, "
+             "StartCheckpoint calls of the old assembly fail and its checkpoint acknowledgements are rejected by the job; a late call whose "
+             "caller has been cancelled (redeployed or gone) is not handled (connection-oriented RPC); a worker one half of which ends by "
+             "itself stops as a whole and is replaced; free-running (trace) survivors runs are not part of the check: without flow control "
+             "every re-assembly kills the surviving runners that send during an operator's loading window, so all workers end up replaced."),
 }
